@@ -49,7 +49,9 @@ TokExp == LET inp == Prefix \o w \o Suffix
 AlphaSeq == SetToSeq(Alphabet)
 DecidedInside(f) == f.mode = "err" /\ (f.err.kind = "surrogate" \/ (f.err.kind = "unexpected" /\ f.err.ch # EOF))
 ErrorsAbsorb == LET f == Final IN
-  DecidedInside(f) => \A tok \in Alphabet : Outcome(Finish(RunFrom(f, tok, 1, o), o)) = Outcome(f)
+  /\ DecidedInside(f) => \A tok \in Alphabet : Outcome(Finish(RunFrom(f, tok, 1, o), o)) = Outcome(f)
+  /\ (DecidedInside(f) /\ st.mode = "err") =>
+        \A tok \in Alphabet : Outcome(Finish(RunFrom(st, tok \o Suffix, 1, o), o)) = Outcome(f)
 
 Dump == DumpOn =>
   LET f == Final IN
@@ -57,7 +59,10 @@ Dump == DumpOn =>
   THEN PrintT(ToJson([k |-> "parse", w |-> Prefix \o w \o Suffix, o |-> <<o.trunc, o.inval>>,
                       out |-> Outcome(f), tok |-> TokExp, nav |-> Nav(f.val)]))
   ELSE PrintT(ToJson([k |-> "parse", w |-> Prefix \o w \o Suffix, o |-> <<o.trunc, o.inval>>,
-                      out |-> Outcome(f), tok |-> TokExp, ext |-> IF DecidedInside(f) THEN AlphaSeq ELSE <<>>]))
+                      out |-> Outcome(f), tok |-> TokExp, ext |-> IF DecidedInside(f) THEN AlphaSeq ELSE <<>>,
+                      \* sfx: length of the fixed suffix; dec: the outcome was already decided before the suffix, so tokens
+                      \* inserted BEFORE the suffix are extensions of the decided prefix as well
+                      sfx |-> Len(Suffix), dec |-> (st.mode = "err")]))
 
 -----------------------------------------------------------------------------
 \* Invariants (design level)
